@@ -160,7 +160,11 @@ pub fn run_tree_dirs(cli: &Path, root: &Path, lang: LangId, cfg: &LangCfg, multi
     let _ = std::fs::remove_file(&log);
     let mut env = env;
     env.push(("TYPESHARE_VERIF_LOG".into(), log.to_string_lossy().into_owned()));
-    let args = cli_args(lang, cfg, multi, &out, dirs);
+    // settings that only exist in typeshare.toml (decorators, constraints, acronyms, type mappings) travel in a config file
+    let cfgp = root.join("verif-typeshare.toml");
+    std::fs::write(&cfgp, crate::sut::config_toml(lang, cfg)).expect("write config");
+    let mut args = vec!["--config-file".to_string(), cfgp.to_string_lossy().into_owned()];
+    args.extend(cli_args(lang, cfg, multi, &out, dirs));
     let o = run_bin(BinRun { cli, args, env, cwd: root, strace, wall_limit: Duration::from_secs(60) });
     let files = if multi {
         read_dir_files(&out)
@@ -179,6 +183,26 @@ pub fn run_tree_dirs(cli: &Path, root: &Path, lang: LangId, cfg: &LangCfg, multi
         .collect();
     let _ = std::fs::remove_file(&log);
     RunOut { files, ok: matches!(o.exit, Exit::Code(0)), stderr: o.stderr, arrivals }
+}
+
+/// a configuration that exercises every table a backend keeps in a hash set / hash map
+fn rich_cfg(lang: LangId) -> LangCfg {
+    let mut c = LangCfg::basic(lang);
+    match lang {
+        LangId::Swift => {
+            c.default_decorators = vec!["Sendable".into(), "Identifiable".into()];
+            c.default_generic_constraints = vec!["Sendable".into(), "Hashable".into()];
+            c.codablevoid_constraints = vec!["Equatable".into(), "Hashable".into(), "Comparable".into()];
+        }
+        LangId::Go => c.uppercase_acronyms = vec!["ID".into(), "URL".into(), "Info".into()],
+        _ => {}
+    }
+    for (k, v) in [("OffsetDateTime", "MappedStamp"), ("Vec<u8>", "MappedBytes"), ("UnknownOne", "MappedOne"), ("UnknownTwo", "MappedTwo")] {
+        if matches!(lang, LangId::Ts | LangId::Go | LangId::Python) || !k.contains('<') {
+            c.type_mappings.insert(k.to_string(), v.to_string());
+        }
+    }
+    c
 }
 
 /// classify how two outputs differ: which kind of definition is the first to be out of place
@@ -412,7 +436,8 @@ pub fn run(ctx: &Ctx) -> (Spec, Report) {
             f.path = format!("src_root/{}", f.path);
         }
         write_tree(&root, &files);
-        let cfg = LangCfg::basic(job.lang);
+        // every other job runs under a configuration with all file-only tables filled
+        let cfg = if j % 2 == 0 { rich_cfg(job.lang) } else { LangCfg::basic(job.lang) };
         let lname = job.lang.name();
         let mode = if job.multi { "multi-file" } else { "single-file" };
         let mut reference: Option<(String, BTreeMap<String, Vec<u8>>)> = None;
@@ -468,7 +493,7 @@ pub fn run(ctx: &Ctx) -> (Spec, Report) {
         let lang = ALL_LANGS[i % 6];
         let n_items = rng.range(6, 14);
         let items = gen_items(&mut rng, n_items, langs_const.contains(&lang), langs_const.contains(&lang));
-        let cfg = LangCfg::basic(lang);
+        let cfg = if i % 2 == 0 { rich_cfg(lang) } else { LangCfg::basic(lang) };
         let mut reference: Option<BTreeMap<String, Vec<u8>>> = None;
         for part in 0..5 {
             let k = [1usize, 2, 3, 5, items.len().min(6)][part];
